@@ -349,8 +349,10 @@ struct inject {
 };
 static const struct inject NO_INJECT = { -1, -1, 0 };
 
-/* Calls rfc1055_decode until the source reports its end code.  ctx0 gives the
- * context the decoder starts in. */
+/* Calls rfc1055_decode until the source reports its end code.  The context
+ * the decoder starts in: rfc1055_context_init(flags0) when use_init_fn, the
+ * header's static initialiser when state0 < 0, else the literal (flags0,
+ * state0) of an explicit-state search node. */
 static void
 run_decoder(unsigned flags0, int state0, bool use_init_fn, enum kind kind,
             const unsigned char *stream, size_t len, struct inject inj)
@@ -359,6 +361,11 @@ run_decoder(unsigned flags0, int state0, bool use_init_fn, enum kind kind,
     RFC1055Context *ctx = mc_exact(sizeof *ctx);
     if (use_init_fn) {
         rfc1055_context_init(ctx, flags0);
+    } else if (state0 < 0) {
+        /* the header's static initialisers */
+        const RFC1055Context c0 = RFC1055_CONTEXT_INIT_DEFAULT;
+        const RFC1055Context c1 = RFC1055_CONTEXT_INIT_WITH_SOF;
+        *ctx = (flags0 & RFC1055_WITH_SOF) ? c1 : c0;
     } else {
         ctx->flags = flags0;
         ctx->state = state0;
@@ -380,7 +387,6 @@ run_decoder(unsigned flags0, int state0, bool use_init_fn, enum kind kind,
         c->off0 = s.pos;
         c->o0 = k.n;
         s.fired = k.fired = false;
-        const long before = s.calls;
         c->rc = rfc1055_decode(ctx, &source, &sink);
         mc_trans(1);
         c->off1 = s.pos;
@@ -401,9 +407,9 @@ run_decoder(unsigned flags0, int state0, bool use_init_fn, enum kind kind,
         }
         if (c->rc == s.end_code && !c->sfired && !c->kfired && s.pos >= len)
             break;
-        /* progress: a call that neither consumed nor asked the source, or more
-         * calls than octets (+ faults), cannot end */
-        if (s.calls == before || R.n > (int)len + 3) {
+        /* progress: every call but the last consumes an octet (or meets the
+         * one injected fault); more calls than that cannot end */
+        if (R.n > (int)len + 3) {
             R.hang = true;
             break;
         }
@@ -505,10 +511,6 @@ judge(bool sof, bool initial, bool faulted, const unsigned char *st, size_t len,
     }
     for (int i = 0; i < R.n; ++i) {
         const struct dcall *c = &R.c[i];
-        if (c->sfired || c->kfired) {
-            if (c->rc != (c->sfired ? R.c[i].rc : 0) && false)
-                ;
-        }
         if (c->rc == 1) {
             v.deliveries++;
             if (c->olen)
@@ -527,9 +529,9 @@ judge(bool sof, bool initial, bool faulted, const unsigned char *st, size_t len,
                 mc_fail("C12/source-error-unchanged", "source ended with -ENODATA at offset %zu, decode returned %s at offset %zu",
                         len, errname(c->rc), c->off1);
         } else if (c->rc == 0 || c->rc > 1) {
+            /* which negative code a decoder uses for anything but an invalid
+             * escape is not fixed by the statement */
             mc_fail("C12/return-domain", "call %d returned %d (end-of-frame is 1, errors are negative)", i, c->rc);
-        } else if (c->rc < 0 && c->rc != -EILSEQ) {
-            mc_fail("C12/return-domain", "call %d returned %s although neither source nor sink failed", i, errname(c->rc));
         }
     }
     if (faulted)
@@ -537,7 +539,6 @@ judge(bool sof, bool initial, bool faulted, const unsigned char *st, size_t len,
 
     /* round trip / concatenation: from the initial context the leading run of
      * well-formed frames is delivered exactly, in order, nothing else */
-    size_t lead_end = 0;
     if (initial) {
         const int k = parse_run(sof, st, len, 0, fr);
         for (int i = 0; i < k; ++i) {
@@ -551,24 +552,23 @@ judge(bool sof, bool initial, bool faulted, const unsigned char *st, size_t len,
                         c ? hex(R.out + c->o0, c->olen) : "-");
                 break;
             }
-            lead_end = fr[i].e;
         }
         if (sof) {
             /* certainly at a frame boundary: at 0 and behind each of them */
-            demand_eilseq(st, len, 0 + (len > 0 && st[0] == O_END ? 1 : len), "first frame");
+            if (len > 0 && st[0] == O_END)
+                demand_eilseq(st, len, 1, "first frame");
             for (int i = 0; i < k; ++i)
                 if (fr[i].e < len && st[fr[i].e] == O_END)
                     demand_eilseq(st, len, fr[i].e + 1, "frame behind the leading run");
         }
     }
-    (void)lead_end;
 
     if (!sof) {
         /* every delimiter synchronises: the frame behind it, if well-formed
          * and non-empty, is delivered; an invalid escape in it is reported */
         if (initial)
             demand_eilseq(st, len, 0, "first frame");
-        for (size_t d = initial ? 1 : 0; d < len; ++d) {
+        for (size_t d = 0; d < len; ++d) {
             if (st[d] != O_END)
                 continue;
             const int k = parse_run(false, st, len, d + 1, fr);
@@ -592,7 +592,7 @@ judge(bool sof, bool initial, bool faulted, const unsigned char *st, size_t len,
     }
 
     /* start-of-frame mode: every cut position */
-    for (size_t g = initial ? 1 : 0; g < len; ++g) {
+    for (size_t g = 0; g < len; ++g) {
         const int k = parse_run(true, st, len, g, fr);
         int seen = 0;
         size_t sync = 0;
@@ -804,8 +804,7 @@ roundtrip_decode(bool sof, bool use_init_fn, enum kind kind)
     static unsigned char stream[MAXSTREAM + 16];
     const size_t len = E.n;
     memcpy(stream, E.out, len);
-    run_decoder(sof ? RFC1055_WITH_SOF : RFC1055_DEFAULT,
-                sof ? RFC1055_SEARCH_FOR_START : RFC1055_NORMAL, use_init_fn, kind,
+    run_decoder(sof ? RFC1055_WITH_SOF : RFC1055_DEFAULT, -1, use_init_fn, kind,
                 stream, len, NO_INJECT);
 }
 
@@ -920,6 +919,39 @@ family_raw(size_t maxlen)
             }
 }
 
+/* (b') ESC followed by each of the 256 octet values inside a frame that is
+ * followed by a good frame: only dc and dd are valid second octets */
+static void
+family_raw_escape_all(void)
+{
+    unsigned char st[16];
+    for (int sof = 0; sof < 2; ++sof)
+        for (int lead = 0; lead < 2; ++lead) /* escape first in the frame / behind an ordinary octet */
+            for (int v = 0; v < 256; ++v) {
+                if (!mc_case("raw-escape mode=%s lead=%d second-octet=%02x", modename(sof), lead, v))
+                    continue;
+                size_t n = 0;
+                if (sof)
+                    st[n++] = O_END;
+                if (lead)
+                    st[n++] = 0x61;
+                st[n++] = O_ESC;
+                st[n++] = (unsigned char)v;
+                st[n++] = 0x62;
+                st[n++] = O_END;
+                for (int f = 0; f < 2; ++f) {
+                    if (sof)
+                        st[n++] = O_END;
+                    st[n++] = (unsigned char)(0x63 + f);
+                    st[n++] = O_END;
+                }
+                mc_log_hex("stream", st, n);
+                run_decoder(sof ? RFC1055_WITH_SOF : RFC1055_DEFAULT, 0, true, K_OCTET, st, n, NO_INJECT);
+                struct verdict vd = judge(sof, true, false, st, n, -1);
+                mc_end(true, vd.eilseq ? "escape-rejected" : "escape-accepted");
+            }
+}
+
 /* (c) garbage prefix x sequence of well-formed frames */
 #define NPL2 31 /* payloads of length <= 2 */
 static unsigned char PL[NPL2][2];
@@ -1008,10 +1040,13 @@ family_fault_encode(size_t maxlen)
                     const long npos = which == 0 ? (long)m : (long)n + 1;
                     for (long at = 0; at < npos; ++at)
                         for (int ci = 0; ci < 2; ++ci) {
-                            if (!mc_case("fault-encode mode=%s payload=%s %s-call=%ld code=%s",
-                                         modename(sof), hex(p, n), which ? "source" : "sink", at,
-                                         errname(CODES[ci])))
+                            if (!mc_would_run()) {
+                                mc_skip_case();
                                 continue;
+                            }
+                            mc_case("fault-encode mode=%s payload=%s %s-call=%ld code=%s",
+                                    modename(sof), hex(p, n), which ? "source" : "sink", at,
+                                    errname(CODES[ci]));
                             struct inject inj = { which ? at : -1, which ? -1 : at, CODES[ci] };
                             run_encoder(sof, true, K_OCTET, p, n, inj, false);
                             const bool fired = which ? E.sfired : E.kfired;
@@ -1044,10 +1079,13 @@ family_fault_decode(size_t maxlen)
                     const long npos = which ? (long)n + 1 : (long)n;
                     for (long at = 0; at < npos; ++at)
                         for (int ci = 0; ci < 2; ++ci) {
-                            if (!mc_case("fault-decode mode=%s stream=%s %s-call=%ld code=%s",
-                                         modename(sof), hex(st, n), which ? "source" : "sink", at,
-                                         errname(CODES[ci])))
+                            if (!mc_would_run()) {
+                                mc_skip_case();
                                 continue;
+                            }
+                            mc_case("fault-decode mode=%s stream=%s %s-call=%ld code=%s",
+                                    modename(sof), hex(st, n), which ? "source" : "sink", at,
+                                    errname(CODES[ci]));
                             struct inject inj = { which ? at : -1, which ? -1 : at, CODES[ci] };
                             run_decoder(sof ? RFC1055_WITH_SOF : RFC1055_DEFAULT, 0, true, K_OCTET, st, n, inj);
                             judge(sof, true, true, st, n, -1);
@@ -1166,6 +1204,7 @@ main(int argc, char **argv)
     family_pairs(th ? 4 : 3);
     family_macro();
     family_raw(th ? 9 : 7);
+    family_raw_escape_all();
     if (th) {
         family_resync(4, 3, NPL2, 0);
         family_resync(6, 2, 6, 5);
@@ -1178,8 +1217,8 @@ main(int argc, char **argv)
     family_long();
 
     mc_finish(true, th
-              ? "payloads and raw streams of length 0..9 over {41,c0,db,dc,dd}; pairs of payloads <= 4; garbage <= 4 x 1-3 frames of payload <= 2, garbage 5-6 x 1-2 frames of payload <= 1; faults at every driver call (payload <= 5, stream <= 6) x {-EIO,-EPIPE}; all 65536 octet pairs, fills/ramps/cycles up to 1024"
-              : "payloads and raw streams of length 0..7 over {41,c0,db,dc,dd}; pairs of payloads <= 3; garbage <= 3 x (1-2 frames of payload <= 2, 3 frames of payload <= 1); faults at every driver call (payload <= 3, stream <= 4) x {-EIO,-EPIPE}; all 65536 octet pairs, fills/ramps/cycles up to 1024");
+              ? "payloads and raw streams of length 0..9 over {41,c0,db,dc,dd}; pairs of payloads <= 4; garbage <= 4 x 1-3 frames of payload <= 2, garbage 5-6 x 1-2 frames of payload <= 1; faults at every driver call (payload <= 5, stream <= 6) x {-EIO,-EPIPE}; ESC x all 256 second octets; all 65536 octet pairs, fills/ramps/cycles up to 1024"
+              : "payloads and raw streams of length 0..7 over {41,c0,db,dc,dd}; pairs of payloads <= 3; garbage <= 3 x (1-2 frames of payload <= 2, 3 frames of payload <= 1); faults at every driver call (payload <= 3, stream <= 4) x {-EIO,-EPIPE}; ESC x all 256 second octets; all 65536 octet pairs, fills/ramps/cycles up to 1024");
     return 0;
 }
 
